@@ -132,6 +132,8 @@ def check(rep, F, tier, replay=None):
             rep.lost("TxInputsBuilder::push_input no longer inserts into the input map (re-anchor REPLACE)")
         elif not cleans:
             rep.violation("REPLACE", "TxInputsBuilder::push_input|stale-script-witness", "push_input overwrites the registration of an outpoint that is already in the builder but never removes the outpoint from required_witnesses.scripts: after add_plutus_script_input(A, x) and add_plutus_script_input(B, x) both scripts, both datums and two Spend redeemers with the same index are emitted for one input", {})
+    from ruleutil import cert_cred_rule
+    cert_cred_rule(rep, F)
     return rep.finish(
         EXPLANATION,
         ["the body field of each purpose is built from the same container (BODY-origin rule of C18)", "enumerate() counts from 0 in iteration order (std)",
